@@ -297,3 +297,283 @@ func c09Shared(c *Ctx) {
 	asInit := r.Bool()
 	CheckOpsShared(c, reqs, exps, true, func(t *ref.T) bool { return asInit }, c09Known)
 }
+
+// c03Shared: one operand object combined with several partners (different
+// shapes, different operators, either position, and with itself).
+func c03Shared(c *Ctx) {
+	r := c.R
+	logic := r.Chance(0.2)
+	dt := c03MustDT[r.Intn(4)]
+	if logic {
+		dt = ref.Bool
+	}
+	sa := c03Shapes[r.Intn(len(c03Shapes))]
+	a := r.Tensor(dt, sa, r.PickInt(gen.FillSmall, gen.FillMixed, gen.FillUnique), 20)
+	var reqs []mon.OpReq
+	var exps []Expect
+	desc := ""
+	for n := r.Range(2, 4); n > 0; n-- {
+		var op string
+		for {
+			op = ref.BinaryOps[r.Intn(len(ref.BinaryOps))]
+			if ref.IsLogic(op) == logic {
+				break
+			}
+		}
+		sb := c03Compatible(r, sa)
+		b := r.Tensor(dt, sb, gen.FillSmall, 20)
+		x, y := a, b
+		switch r.Intn(5) {
+		case 0:
+			x, y = b, a
+		case 1:
+			y = a
+		}
+		if op == "Div" && dt.IsInt() {
+			if y == a {
+				x, y = a, b
+			}
+			for i := range b.Bits {
+				if b.Bits[i] == 0 {
+					b.Bits[i] = 1
+				}
+			}
+			if y == a {
+				continue
+			}
+		}
+		e, skip := c03Expect(op, x, y)
+		if skip != "" {
+			continue
+		}
+		reqs, exps = append(reqs, mon.OpReq{Op: op, Inputs: []*ref.T{x, y}}), append(exps, e)
+		desc += fmt.Sprintf("%s%v%v ", op, x.Shape, y.Shape)
+	}
+	if len(reqs) < 2 {
+		c.Skip("fewer than two calls drawn")
+		return
+	}
+	c.SetCase("one operand %s used by: %s", trunc(a.String(), 160), describeSeq(reqs))
+	c.Nontrivial(fmt.Sprintf("shared|%v|%v|%s", dt, sa, desc))
+	c.Count("class:shared-operand", 1)
+	asInit := r.Bool()
+	CheckOpsShared(c, reqs, exps, true, func(t *ref.T) bool { return t == a && asInit }, c03Known)
+}
+
+// c04Shared: one weight matrix multiplied with left operands of different
+// rank (MatMul), one B and C used for several A (Gemm).
+func c04Shared(c *Ctx) {
+	r := c.R
+	dt := ref.F32
+	ext := func() int { return r.PickInt(1, 2, 2, 3, 5) }
+	k, n := ext(), ext()
+	var reqs []mon.OpReq
+	var exps []Expect
+	var shared []*ref.T
+	if r.Bool() {
+		sb := []int{k, n}
+		switch r.Intn(4) {
+		case 0:
+			sb = []int{k}
+		case 1:
+			sb = []int{r.Range(1, 3), k, n}
+		}
+		b := numTensor(r, dt, sb)
+		shared = []*ref.T{b}
+		for cnt := r.Range(2, 4); cnt > 0; cnt-- {
+			var sa []int
+			switch r.Intn(4) {
+			case 0:
+				sa = []int{k}
+			case 1:
+				sa = []int{ext(), k}
+			case 2:
+				sa = []int{r.Range(1, 3), ext(), k}
+				if len(sb) == 3 && r.Bool() {
+					sa[0] = sb[0]
+				}
+			default:
+				sa = []int{r.Range(1, 2), 1, ext(), k}
+			}
+			a := numTensor(r, dt, sa)
+			x, y := a, b
+			switch {
+			case r.Chance(0.2) && len(sb) == 2 && len(sa) <= 2: // the shared matrix on the left
+				a = numTensor(r, dt, []int{n, ext()})
+				x, y = b, a
+			case len(sb) == 1 && r.Chance(0.6): // the shared vector on the left, or on both sides
+				a = numTensor(r, dt, []int{k, ext()})
+				x, y = b, a
+				if r.Chance(0.3) {
+					y = b
+				}
+			}
+			want, err := ref.MatMul(x, y)
+			reqs = append(reqs, mon.OpReq{Op: "MatMul", Inputs: []*ref.T{x, y}})
+			exps = append(exps, numExpect(want, err, dt, true))
+		}
+	} else {
+		b := numTensor(r, dt, []int{k, n})
+		cc := numTensor(r, dt, r.PickShape([]int{}, []int{n}, []int{1, n}, []int{1}, []int{1, 1}))
+		shared = []*ref.T{b, cc}
+		for cnt := r.Range(2, 3); cnt > 0; cnt-- {
+			a := numTensor(r, dt, []int{ext(), k})
+			q := mon.OpReq{Op: "Gemm", Inputs: []*ref.T{a, b, cc}}
+			alpha, beta := 1.0, 1.0
+			if r.Bool() {
+				beta = r.PickFloat(0.5, 2, -1, 1)
+				q.Attrs = append(q.Attrs, mon.AttrF("beta", float32(beta)))
+			}
+			if r.Bool() {
+				alpha = r.PickFloat(0.5, 2, -1, 0)
+				q.Attrs = append(q.Attrs, mon.AttrF("alpha", float32(alpha)))
+			}
+			want, err := ref.Gemm(a, b, cc, alpha, beta, false, false)
+			reqs, exps = append(reqs, q), append(exps, numExpect(want, err, dt, true))
+		}
+	}
+	c.SetCase("shared weight(s) for %d %s calls: %s", len(reqs), reqs[0].Op, describeSeq(reqs))
+	c.Nontrivial(fmt.Sprintf("shared|%s|%s", reqs[0].Op, shapesAll(reqs)))
+	c.Count("class:shared-operand/"+reqs[0].Op, 1)
+	asInit := r.Bool()
+	CheckOpsShared(c, reqs, exps, true, func(t *ref.T) bool {
+		for _, s := range shared {
+			if t == s {
+				return asInit
+			}
+		}
+		return false
+	}, nil)
+}
+
+func shapesAll(reqs []mon.OpReq) string {
+	s := ""
+	for _, q := range reqs {
+		for _, in := range q.Inputs {
+			if in != nil {
+				s += fmt.Sprint(in.Shape)
+			}
+		}
+		s += attrsString(q) + ";"
+	}
+	return s
+}
+
+// c10Shared: one operand object passed to several unary operators.
+func c10Shared(c *Ctx) {
+	r := c.R
+	dt := r.PickDT(ref.F32, ref.F32, ref.F64)
+	shape := r.Shape(0, 4, 5, 80)
+	x := r.Tensor(dt, shape, r.PickInt(gen.FillSmall, gen.FillMixed), []float64{1.5, 4, 20, 100}[r.Intn(4)])
+	var reqs []mon.OpReq
+	var exps []Expect
+	desc := ""
+	for n := r.Range(2, 4); n > 0; n-- {
+		var op string
+		for {
+			op = ref.UnaryOps[r.Intn(len(ref.UnaryOps))]
+			okDT := false
+			for _, d := range c10DTs(op) {
+				okDT = okDT || d == dt
+			}
+			if okDT {
+				break
+			}
+		}
+		q := mon.OpReq{Op: op, Inputs: []*ref.T{x}}
+		var e Expect
+		if op == "PRelu" {
+			slope := x
+			if r.Bool() {
+				slope = r.Tensor(dt, []int{}, gen.FillSmall, 5)
+			}
+			q.Inputs = append(q.Inputs, slope)
+			want, err := ref.PRelu(x, slope)
+			if err != nil {
+				continue
+			}
+			e = Expect{Kind: MustEqual, Want: []*ref.Approx{want}, Mode: CmpIEEE, Why: "valid request"}
+		} else {
+			want, err := ref.Unary(op, x)
+			if err != nil {
+				continue
+			}
+			e = Expect{Kind: MustEqual, Want: []*ref.Approx{want}, Mode: CmpTol, Why: "valid request"}
+		}
+		reqs, exps = append(reqs, q), append(exps, e)
+		desc += op + " "
+	}
+	if len(reqs) < 2 {
+		c.Skip("fewer than two calls drawn")
+		return
+	}
+	c.SetCase("one operand %s used by: %s", trunc(x.String(), 200), desc)
+	c.Nontrivial(fmt.Sprintf("shared|%v|%v|%s|%x", dt, shape, desc, mon.HashBits(x.Bits)))
+	c.Count("class:shared-operand", 1)
+	asInit := r.Bool()
+	CheckOpsShared(c, reqs, exps, true, func(t *ref.T) bool { return asInit }, c10Known)
+}
+
+// c11Shared: one source tensor cast to several types; one shape tensor for
+// several ConstantOfShape fills.
+func c11Shared(c *Ctx) {
+	r := c.R
+	var reqs []mon.OpReq
+	var exps []Expect
+	desc := ""
+	if r.Bool() {
+		from := r.PickDT(ref.F32, ref.F64, ref.I32, ref.I64, ref.I16, ref.U16, ref.U32, ref.U64)
+		x := ref.New(from, r.Shape(0, 4, 4, 60)...)
+		for i := range x.Bits { // values every numeric type can hold
+			x.Bits[i] = ref.EncF(from, float64(r.Range(0, 100)))
+		}
+		for n := r.Range(2, 4); n > 0; n-- {
+			to := gen.NumericDTs[r.Intn(10)]
+			want, ok := ref.Cast(x, to)
+			if !ok {
+				continue
+			}
+			q := mon.OpReq{Op: "Cast", Inputs: []*ref.T{x}, Attrs: []*mon.Attr{mon.AttrI("to", int64(to.OnnxCode()))}}
+			reqs, exps = append(reqs, q), append(exps, Expect{Kind: MustEqual, Want: Exact(want), Mode: CmpIEEE, Why: "valid request"})
+			desc += "Cast->" + to.String() + " "
+		}
+	} else {
+		shape := r.Shape(1, 4, 5, 200)
+		s64 := make([]int64, len(shape))
+		for i, e := range shape {
+			s64[i] = int64(e)
+		}
+		st := gen.I64s(s64...)
+		for n := r.Range(2, 3); n > 0; n-- {
+			q := mon.OpReq{Op: "ConstantOfShape", Inputs: []*ref.T{st}}
+			var val *ref.T
+			if r.Chance(0.8) {
+				dt := r.PickDT(ref.F32, ref.F64, ref.I32, ref.I64, ref.U8, ref.I16)
+				val = r.Tensor(dt, []int{1}, gen.FillSmall, 100)
+				q.Attrs = []*mon.Attr{mon.AttrT("value", mon.TensorProto("", val, r.Bool()))}
+			}
+			want, err := ref.ConstantOfShape(s64, val)
+			if err != nil {
+				continue
+			}
+			reqs, exps = append(reqs, q), append(exps, Expect{Kind: MustEqual, Want: Exact(want), Mode: CmpIEEE, Why: "valid request"})
+			desc += "ConstantOfShape{" + attrsString(q) + "} "
+		}
+	}
+	if len(reqs) < 2 {
+		c.Skip("fewer than two calls drawn")
+		return
+	}
+	c.SetCase("one operand %s used by: %s", trunc(reqs[0].Inputs[0].String(), 200), desc)
+	c.Nontrivial(fmt.Sprintf("shared|%v|%s", reqs[0].Inputs[0].Shape, desc))
+	c.Count("class:shared-operand", 1)
+	asInit := r.Bool()
+	CheckOpsShared(c, reqs, exps, true, func(t *ref.T) bool { return asInit }, nil)
+}
+
+// Sentences appended to the evidence rule of the operator-level properties.
+const (
+	ruleShared  = " One case in sixteen is a SEQUENCE of 2-4 requests that share operand objects (the same tensor object handed to several calls; as one graph: one input or initializer consumed by several nodes, run twice on one loaded model); every call is judged against the reference applied to the operand values the caller built."
+	ruleReused  = " In one case of eight the request is additionally applied to an operator instance that was initialised with the request's attributes and has already been applied to one or two other valid input lists (an instance carries only its attributes: same expectation)."
+	ruleChained = " The split relation is also run as one graph of two chained nodes (first node's Y omitted in half of the cases, skipped optional inputs named \"\")."
+)
